@@ -3,7 +3,7 @@
    instantiated with the generated tables (C12/Gen_*.v, regenerated on every run). *)
 From Coq Require Import List NArith ZArith Bool.
 From MW Require Import Common.Str C12.Model C12.ListLemmas C12.Proofs C12.Inst C12.ProofsInst.
-From MW Require Import C14.Model C14.Inst C14.ProofsIndex C14.ProofsEscape C14.ProofsImage C14.ProofsFile C14.ProofsExpanded C14.ProofsStore C14.ProofsFallback.
+From MW Require Import C14.Model C14.Inst C14.ProofsIndex C14.ProofsEscape C14.ProofsImage C14.ProofsFile C14.ProofsExpanded C14.ProofsStore C14.ProofsFallback C14.ProofsHistory.
 Import ListNotations.
 Open Scope N_scope.
 
@@ -259,3 +259,15 @@ Example C14_example :
   end.
 Proof. vm_compute. split; reflexivity. Qed.
 Print Assumptions C14_example.
+
+(* HISTORY INDEPENDENCE OF THE LOOKUPS ON ONE OPENED ARCHIVE.  A session = the answers to a list of queries
+   (normalize_and_get_page with any default namespace, get_page, get_fqname) asked one after the other on the one opened
+   archive.  Whatever was asked before and after, the answer to a query is the answer it gets as the only query on the fresh
+   archive.  (The model has no handler state, so this holds by construction; it is stated because the real NsHandler/NuWiki
+   objects live across lookups: the correspondence run asks the lookups of one archive in random order on the one object.) *)
+Theorem C14_lookup_history_independent : forall st rtab ix redirects before q after,
+  nth_error (session st rtab ix redirects (before ++ q :: after)) (length before)
+    = nth_error (session st rtab ix redirects [q]) 0
+  /\ nth_error (session st rtab ix redirects [q]) 0 = Some (answer_of st rtab ix redirects q).
+Proof. exact session_history_independent. Qed.
+Print Assumptions C14_lookup_history_independent.
